@@ -16,7 +16,7 @@ BASE = dict(CfgMin=1, CfgMax=2, CfgWm=1, CfgFb=False, CfgUc=0, CfgUms=0, CfgRr=F
             Keys=[1, 2], AVs=[1, 2], States=ALL_STATES, Methods=["PLAIN", "BIND", "BOUND", "UNBIND"],
             Outs=["OK", "ERR"], Dls=[0], Advs=[], CfgKinds=["first"],
             MaxConn=3, MaxCalls=3, MaxPub=8, MaxDepth=6, StalePick=1,
-            UseFail=False, UseUnknown=False, UseBadReq=False)
+            UseFail=False, UseUnknown=False, UseBadReq=False, Pre=0)
 
 
 def fam(**kw):
@@ -64,6 +64,21 @@ FAMILIES = {
     # resolver fan-out
     "resolver": fam(CfgUc=1, CfgUms=2, Keys=[1], AVs=[0, 1, 2], States=["READY", "SHUTDOWN"], Methods=["PLAIN"], Outs=["OK", "CDE"],
                     Dls=[1], Advs=[3], MaxConn=4, MaxCalls=2, StalePick=0),
+    # exploration from an established pool (deterministic preamble, then every history of the given length)
+    "deep-aff": fam(CfgMin=2, CfgMax=2, CfgWm=2, Keys=[1], AVs=[1], States=["READY", "TF"], Methods=["BIND", "BOUND", "UNBIND"],
+                    Outs=["OK", "ERR"], MaxCalls=4, StalePick=1, Pre=4),
+    "deep-affref": fam(CfgMin=1, CfgMax=1, CfgWm=5, CfgUc=1, CfgUms=2, Keys=[1], AVs=[1], States=["READY"], Methods=["PLAIN", "BIND", "BOUND"],
+                       Outs=["OK", "CDE"], Dls=[0, 1], Advs=[3], MaxConn=3, MaxCalls=4, StalePick=0, Pre=1),
+    "deep-refbound": fam(CfgMin=1, CfgMax=1, CfgWm=5, CfgUc=1, CfgUms=2, Keys=[1], AVs=[1], States=["READY", "TF"], Methods=["PLAIN", "BOUND", "UNBIND"],
+                         Outs=["OK", "CDE"], Dls=[0, 1], Advs=[3], MaxConn=3, MaxCalls=5, StalePick=0, Pre=3),
+    "deep-load": fam(CfgMin=3, CfgMax=3, CfgWm=100, Keys=[1], AVs=[1], States=["READY"], Methods=["PLAIN"], Outs=["OK"], MaxConn=3, MaxCalls=7,
+                     StalePick=0, Pre=5),
+    "deep-fb": fam(CfgMin=2, CfgMax=2, CfgWm=1, CfgFb=True, Keys=[1], AVs=[1], States=["READY", "TF", "IDLE"], Methods=["PLAIN", "BOUND"],
+                   Outs=["OK"], MaxConn=2, MaxCalls=4, StalePick=1, Pre=4),
+    "deep-refresh": fam(CfgMin=1, CfgMax=2, CfgWm=1, CfgUc=1, CfgUms=2, Keys=[1], AVs=[1, 2], States=["READY", "TF", "SHUTDOWN"], Methods=["PLAIN"],
+                        Outs=["OK", "CDE"], Dls=[0, 1], Advs=[3], MaxConn=4, MaxCalls=3, StalePick=0, Pre=6),
+    "deep-rr": fam(CfgMin=3, CfgMax=3, CfgWm=100, CfgRr=True, Keys=[1], AVs=[1], States=["READY", "TF"], Methods=["BIND", "PLAIN"], Outs=["OK"],
+                   Dls=[0, 2], Advs=[3], MaxConn=3, MaxCalls=6, StalePick=0, Pre=5),
     # everything on (simulation only)
     "spanner": fam(CfgMin=2, CfgMax=3, CfgWm=2, CfgFb=True, CfgUc=1, CfgUms=2, CfgRr=True, Keys=[1, 2], AVs=[1, 2],
                    States=ALL_STATES, Methods=["PLAIN", "BIND", "BOUND", "UNBIND"], Outs=["OK", "ERR", "CDE", "SDE"], Dls=[0, 1, 3], Advs=[3],
@@ -72,17 +87,17 @@ FAMILIES = {
 
 # which families decide which property (first ones are the quick tier)
 PROP_FAMILIES = {
-    "C01": ["affinity1", "refresh", "affinity", "fallbackrefresh", "spanner"],
-    "C02": ["growth2", "affinity", "refresh", "rr", "spanner"],
-    "C03": ["growth", "growth2", "faults", "refresh", "spanner"],
-    "C04": ["states", "refresh", "faults", "spanner"],
-    "C05": ["faults", "faultsfb", "refreshfail", "spanner"],
-    "C06": ["faultsfb", "faults", "rr", "refreshfail", "spanner"],
-    "C07": ["refresh2", "refresh", "refreshfail", "rrrefresh", "spanner"],
-    "C08": ["fallback", "fallbackrefresh", "faultsfb", "spanner"],
-    "C09": ["rr", "rrrefresh", "spanner"],
+    "C01": ["deep-aff", "deep-affref", "affinity1", "refresh", "deep-refbound", "affinity", "fallbackrefresh", "spanner"],
+    "C02": ["deep-load", "growth2", "affinity", "refresh", "deep-affref", "rr", "spanner"],
+    "C03": ["growth", "growth2", "faults", "refresh", "deep-refresh", "spanner"],
+    "C04": ["states", "refresh", "deep-refresh", "faults", "spanner"],
+    "C05": ["faults", "faultsfb", "refreshfail", "deep-refbound", "spanner"],
+    "C06": ["faultsfb", "faults", "rr", "refreshfail", "deep-rr", "spanner"],
+    "C07": ["refresh2", "deep-refresh", "refresh", "refreshfail", "deep-affref", "rrrefresh", "spanner"],
+    "C08": ["deep-fb", "fallback", "fallbackrefresh", "faultsfb", "spanner"],
+    "C09": ["deep-rr", "rr", "rrrefresh", "spanner"],
     "C17": ["config0", "config1"],
-    "C20": ["resolver", "refresh", "faults", "spanner"],
+    "C20": ["resolver", "deep-refresh", "refresh", "faults", "spanner"],
 }
 
 PROP_OF_CLAUSE = lambda cid: cid.split("_")[0]
@@ -123,28 +138,29 @@ def raw_cfg(consts):
 def scripts_from_tlc(outfile, consts, prefix, maximal=True, limit=None):
     """Turn the histories printed by TLC into harness scripts. With maximal=True histories that are a
     proper prefix of another printed history are dropped (they are executed as part of the longer one)."""
-    hs = []
     seen = set()
+    hists, keys = [], []
     for s in vlib.tlc_file_prints(outfile, "SCRIPT"):
         if s in seen:
             continue
         seen.add(s)
-        hs.append(s)
-    hists = [json.loads(s) for s in hs]
+        h = json.loads(s)
+        if not h:
+            continue
+        ks = [json.dumps(st, sort_keys=True) for st in h]
+        hists.append(h)
+        keys.append(ks)
     if maximal:
-        haschild = set()
-        for h in hists:
-            if len(h) > 0:
-                haschild.add(json.dumps(h[:-1], sort_keys=True))
-        hists = [h for h in hists if len(h) > 0 and json.dumps(h, sort_keys=True) not in haschild]
-    if not maximal:
+        haschild = set("\x1f".join(ks[:-1]) for ks in keys)
+        hists = [h for h, ks in zip(hists, keys) if "\x1f".join(ks) not in haschild]
+    else:
         # simulation prints every candidate last step of a behaviour: keep at most two siblings per parent
         bypar = {}
-        for h in hists:
-            bypar.setdefault(json.dumps(h[:-1], sort_keys=True), []).append(h)
+        for h, ks in zip(hists, keys):
+            bypar.setdefault("\x1f".join(ks[:-1]), []).append(h)
         hists = [h for hs2 in bypar.values() for h in hs2[:2]]
     if limit and len(hists) > limit:
-        random.shuffle(hists)
+        random.Random(len(hists)).shuffle(hists)
         hists = hists[:limit]
     cfg = raw_cfg(consts)
     return [{"id": "%s-%d" % (prefix, i), "cfg": cfg, "steps": h} for i, h in enumerate(hists)]
